@@ -9,7 +9,7 @@ the class stubs.
 
 from __future__ import annotations
 
-from ..core import Check, Viol, drive, gated_features, generic_replay, rng_for
+from ..core import Check, Viol, drive, gated_features, generic_replay, rng_for, noise_opts
 from ..run import Case
 from ..stubs import StubSet
 
@@ -208,7 +208,7 @@ def gen(tier: str, seed: int) -> list[Case]:
         except TypeError:
             continue  # inconsistent MRO: not a valid Python hierarchy
         kinds = {k: {m: kind for m, kind in c.methods} for c in allc for k in [c.name]}
-        cases.append(Case(cid=f"c17-{len(cases)}", files=render_modules(allc), opts=["-nc"] if len(cases) % 3 == 2 else [], meta={"truth": truth, "kinds": kinds, "classes": {c.name: c for c in allc}}, reach=REACH))
+        cases.append(Case(cid=f"c17-{len(cases)}", files=render_modules(allc), opts=(["-nc"] if len(cases) % 3 == 2 else []) + noise_opts(seed, PID, len(cases)), meta={"truth": truth, "kinds": kinds, "classes": {c.name: c for c in allc}}, reach=REACH))
     return cases
 
 
